@@ -207,29 +207,8 @@ def gproject(o, depth=0):
     return ('other', t.__name__, B.scrub(repr(o))[:200])
 
 
-def _private(name):
-    name = str(name)
-    return name.startswith('_') and not (name.startswith('__') and name.endswith('__'))
-
-
-def _reachable(o, seen, depth=0, public_only=False):
-    """ids of everything reachable from o.  public_only: do not follow private ('_x') attributes of
-    objects - what hangs only below those is internal state of the object, not part of the value
-    the user wrote (containers the user passed in are registered separately, see Zoo.lit)"""
-    if B._is_leaf(o) and not isinstance(o, (set, frozenset)) or depth > 30 or id(o) in seen:
-        return
-    seen.add(id(o))
-    if isinstance(o, dict):
-        for k, v in dict.items(o):
-            _reachable(k, seen, depth + 1, public_only)
-            _reachable(v, seen, depth + 1, public_only)
-    elif isinstance(o, (list, tuple, set, frozenset)):
-        for x in list(o):
-            _reachable(x, seen, depth + 1, public_only)
-    else:
-        for name, v in B._attr_items(o):
-            if not (public_only and _private(name)):
-                _reachable(v, seen, depth + 1, public_only)
+_private = B._private
+_reachable = B.reachable_ids
 
 
 def mutate_result(res, owned):
@@ -587,7 +566,7 @@ def free_threads(seed, nthreads, ncalls):
         for t in ts:
             t.start()
         for t in ts:
-            t.join(120)
+            t.join(1800)
     finally:
         sys.setswitchinterval(old)
     return out, errs
